@@ -499,3 +499,41 @@ def _spec_ncols(self, e, fr):
 
 
 X.Interp.spec_ncols = _spec_ncols
+
+
+# -- ownership (C15): does a value share memory with caller data? ---------------------------------------------------
+def _spec_fresh(self, e, fr):
+    """fresh(v): v is a newly allocated array that shares no memory with any argument (under the aliasing model:
+    np.array / copy -> fresh; DataFrame.values, np.asarray, np.atleast_2d, ravel / reshape of a view -> view)"""
+    v = self.ev(e.args[0], fr)
+    if isinstance(v, SNd):
+        return v.src is not None and v.src[0] == "fresh"
+    if isinstance(v, SArr1) or is_num(v) or v is None:
+        return True
+    raise Unsupported("fresh(%r)" % (v,))
+
+
+X.Interp.spec_fresh = _spec_fresh
+
+
+def _np_asarray(models, it, args, kw, fr, node):
+    v = args[0]
+    if isinstance(v, SOpaque) and v.sort == "RawX":
+        a = np_array(models, it, args, kw, fr, node)
+        models.note(it, "model:np.asarray / np.atleast_2d (no copy for ndarray input: the result may alias the caller's data)")
+        return SNd(a.shape, a.elem, src=("view", v.t), kind=a.kind)
+    return np_array(models, it, args, kw, fr, node)
+
+
+def _np_atleast_2d(models, it, args, kw, fr, node):
+    a = _np_asarray(models, it, args, kw, fr, node)
+    if isinstance(a, SNd) and a.shape is not None:
+        if len(a.shape) == 0:
+            return SNd((1, 1), lambda idx, a=a: a.elem(()), src=a.src, kind=a.kind)
+        if len(a.shape) == 1:
+            return SNd((1, a.shape[0]), lambda idx, a=a: a.elem((idx[1],)), src=a.src, kind=a.kind)
+    return a
+
+
+EXTRA_EXT["numpy.asarray"] = _np_asarray
+EXTRA_EXT["numpy.atleast_2d"] = _np_atleast_2d
